@@ -7,6 +7,7 @@ pub const PK_PACKET: u8 = 0;
 pub const PK_TICK: u8 = 1;
 pub const PK_SCRIPT: u8 = 2;
 pub const PK_SPEC: u8 = 3;
+pub const PK_LINK: u8 = 4;
 
 #[derive(Clone, Copy, Debug, Serialize, Deserialize, PartialEq, Eq)]
 pub struct Point {
